@@ -625,6 +625,13 @@ def check_C16(run):
                    "observation must equal the one taken before Merge.  Differences of class F30 (an empty structure answers "
                    "'not found') are counted as the known finding; anything else is a violation", use_driver=False)
     crash_cov(run, r)
+    n = 8 if run.tier == "quick" else 160
+    r2 = hist_suite(run, "mergecrashpos", ["hist", "-n", n, "-x", "mergecrashpos"],
+                    "the same enumeration for a workload dominated by one sorted set with position-dependent removals (ZPopMin/ZPopMax/"
+                    "ZRemRangeByRank with small ranks): differences of the sorted sets those records touch, after a crash INSIDE Merge, are "
+                    "known finding F31 (counted); every other difference — other buckets and structures, or after a completed Merge — is a "
+                    "violation", use_driver=False)
+    crash_cov(run, r2)
 
 
 RULE_CONC = ("4-16 goroutines per database (1-2 databases at once) run mixed View/Update transactions on the real library, built "
